@@ -41,7 +41,7 @@ func (m *Meta) Encode() ([]byte, error) {
 		return nil, err
 	}
 
-	return buf.Bytes(), nil
+	return bytes.Clone(buf.Bytes()), nil
 }
 
 func (m *Meta) Decode(data []byte) error {
